@@ -5,6 +5,7 @@ pub mod c01_04;
 pub mod c05;
 pub mod c06;
 pub mod c10;
+pub mod c12;
 
 pub struct Args {
     pub prop: String,
@@ -38,6 +39,7 @@ pub fn run(args: &Args) -> Shard {
         "C05" => c05::run(args, &mut sh),
         "C06" => c06::run(args, &mut sh),
         "C10" => c10::run(args, &mut sh),
+        "C12" => c12::run(args, &mut sh),
         "DBG" => { let mut a2 = Args { prop: "C03".into(), tier: args.tier.clone(), build: args.build.clone(), seed: args.seed, shard: 0, nshards: 1, replay: None, scale: 1000 }; a2.seed = args.seed; c01_04::debug_mismatch(&a2) }
         p => sh.inconclusive.push(format!("no check implemented for {}", p)),
     }
